@@ -665,6 +665,51 @@ fn run_goff(job: &Job) {
 }
 
 // ------------------------------------------------------------------------------------------------
+// job kind "pri": decimal user priors (round 5)
+
+/// every composition of `total` into `k` positive parts, in lexicographic order
+fn compositions(total: usize, k: usize) -> Vec<Vec<usize>> {
+    if k == 1 {
+        return vec![vec![total]];
+    }
+    let mut out = Vec::new();
+    for first in 1..=(total - (k - 1)) {
+        for mut rest in compositions(total - first, k - 1) {
+            let mut v = vec![first];
+            v.append(&mut rest);
+            out.push(v);
+        }
+    }
+    out
+}
+
+/// User priors given in tenths (every ordered k-vector of positive tenths summing to 10/10, k = 2..5):
+/// these are the priors users actually write; their floating-point sum is 1 or 1 +- 1 ulp depending on
+/// the order. Such priors are valid: the fit must succeed and report them.
+fn run_pri(job: &Job) {
+    let k = job.u("k");
+    let comps = compositions(10, k);
+    let c = &comps[mc::choose(comps.len())];
+    let priors: Vec<f64> = c.iter().map(|t| *t as f64 / 10.0).collect();
+    let v = [V::G, V::M, V::B][mc::choose(3)];
+    let lm = label_map(k, mc::choose(2));
+    let n = 2 * k;
+    let y: Vec<f64> = (0..n).map(|i| lm[i / 2]).collect();
+    let x: Vec<Vec<f64>> = match v {
+        V::B => (0..n).map(|i| vec![(i % 2) as f64, ((i / 2) % 2) as f64]).collect(),
+        _ => (0..n).map(|i| vec![(i % 3) as f64, ((i * 2) % 5) as f64]).collect(),
+    };
+    let queries = Rc::new(x.clone());
+    let s: f64 = priors.iter().sum();
+    if s != 1.0 {
+        mc::count("decimal_priors_fp_sum_not_exactly_one");
+    }
+    let inst = Inst { v, x, y, alpha: 1.0, priors: Some(priors), bin: if v == V::B { Some(0.5) } else { None }, queries };
+    mc::count("decimal_priors_instances");
+    execute(&inst, false);
+}
+
+// ------------------------------------------------------------------------------------------------
 // plan
 
 /// Job-name suffix of the data kind (x = {0,1} data, extended thresholds; m = mixed alphabet).
@@ -829,6 +874,9 @@ impl Harness for C11 {
             for i in 0..mc_sc::entry::n_parts("C11") {
                 j.insert(1 + i, Job::new(format!("entry-{}", i), json!({"kind": "entry", "part": i})));
             }
+            for k in 2..=5usize {
+                j.insert(1, Job::new(format!("pri-k{}", k), json!({"kind": "pri", "k": k})));
+            }
             j
         };
         Plan {
@@ -845,6 +893,8 @@ impl Harness for C11 {
                 ("labels_not_0_to_k-1", 100_000),
                 ("labels_negative", 50_000),
                 ("user_priors", 100_000),
+                ("decimal_priors_instances", 1_000),
+                ("decimal_priors_fp_sum_not_exactly_one", 10),
                 ("alpha_not_1", 100_000),
                 ("class_sizes_differ", 100_000),
                 ("categorical_empty_class", 10_000),
@@ -873,7 +923,7 @@ impl Harness for C11 {
                 "alphabets": {"gaussian": G_BASE, "gaussian_tight_clusters": G_TIGHT, "multinomial": M_ALPH[(seed % 8) as usize], "bernoulli": "{0,1} (binarize none/0/0.5) and reals {-0.5,0.2,0.7,1.5} with thresholds {0,0.5,0.7,-0.7}",
                               "bernoulli_extension_round_2": format!("{{0,1}} data with thresholds {:?} (>=1: every entry -> 0, negative: every entry -> 1) and the mixed alphabet {:?} (prefixes of size 3/4/5) with thresholds {:?}; full lattice for n<=4, p<=2 (quick: |A|=5 up to n*p=6 resp. n=4 p=1, |A|=3 at n=4 p=2), k=2..min(n,3), x label maps x alpha x priors (full / third / four-element diagonal), plus the structured families; not seed-dependent", B_EXT_THR, B_MIX, B_MIX_THR), "categorical": C_ALPH, "alpha": ALPHAS[(seed % 8) as usize]},
                 "label_maps": "0..k-1, {-3,7,10}, {2,3}/{1,2,4}, {-1,1}/{-2^40,5,2^52}",
-                "user_priors": "none + two dyadic prior vectors per k",
+                "user_priors": "none + two dyadic prior vectors per k; decimal priors: every ordered vector of positive tenths summing to one for k = 2..5 (255 vectors) x {Gaussian, multinomial, Bernoulli} x 2 label maps on a fixed 2k-row training set",
                 "queries": "the full alphabet^p lattice (categorical: every in-range code); judged when every value occurred in that column of the training set",
                 "families": format!("n in {:?} x p in {:?} x k in {:?} x 3 class layouts x 2 generators x configurations", FAM_N, FAM_P, FAM_K),
                 "offsets": format!("Gaussian p=1 lattice translated by {:?}", GOFF),
@@ -889,6 +939,7 @@ impl Harness for C11 {
             "lat" => run_lattice(job),
             "fam" => run_family(job),
             "goff" => run_goff(job),
+            "pri" => run_pri(job),
             "builders" => mc_sc::builders::run("C11"),
             other => panic!("unknown job kind {}", other),
         }
